@@ -310,3 +310,191 @@ def _models_unwrap(v):
 
 
 JOBS["C09"] = [WorktopStep(op) for op in OPS]
+
+
+# ---------------------------------------------------------------------------------------------------------------
+# non-fungible operations: the bucket of slot 0 holds a symbolic id set E, the operation names a set Q
+def _nfid(t):
+    return StructV("NonFungibleLocalId", [IntV(t, "u64")])
+
+
+class WorktopNfStep(WorktopStep):
+    case_keys = ("ne", "nq")
+
+    def __init__(self, op):
+        self.op = op
+        self.name = "c09m::worktop_" + op
+        self.what = {
+            "take_non_fungibles": "WorktopBlueprint::take_non_fungibles: succeeds exactly when no id is asked for (a fresh empty "
+                                  "bucket), or the worktop holds the resource and EVERY asked id is among the held ones; then the "
+                                  "whole bucket is moved out only when the asked ids are all the held ids, else exactly the asked "
+                                  "ids are split off; a failed take changes nothing",
+            "assert_contains_non_fungibles": "WorktopBlueprint::assert_contains_non_fungibles: passes exactly when every asserted id "
+                                             "is held for that resource; changes nothing",
+        }[op] + " -- held sets of <= 2 and asked sets of <= 2 distinct symbolic ids"
+        self.cover_labels = {"take_non_fungibles": ["whole bucket moved out", "ids split off", "same count but a foreign id: rejected"],
+                             "assert_contains_non_fungibles": ["passes", "fails"]}[op]
+
+    def cases(self, tier):
+        return [{"ne": ne, "nq": nq} for ne in (0, 1, 2) for nq in (0, 1, 2)]
+
+    def inputs(self):
+        d, pre = WorktopStep.inputs(self)
+        c = self.case
+        for pfx, n in (("e_", c["ne"]), ("q_", c["nq"])):
+            for j in range(n):
+                k = "%s%d" % (pfx, j)
+                d[k] = z3.Int(k)
+                pre += [d[k] >= 0, d[k] <= 9]
+                for j2 in range(j):
+                    pre.append(d[k] != d["%s%d" % (pfx, j2)])
+        return d, pre
+
+    def _sets(self, d):
+        c = self.case
+        return [d["e_%d" % j] for j in range(c["ne"])], [d["q_%d" % j] for j in range(c["nq"])]
+
+    @property
+    def env_overrides(self):
+        base = WorktopStep.env_overrides.fget(self)
+        R = re.compile
+
+        def ok(ret_ty, v):
+            return EnumV(ret_ty, 0, {0: [v]})
+
+        def node_of(interp, path, b):
+            b = _models.deref(interp, path, b)
+            while b.kind == "struct" and b.ty != "NodeId":
+                b = b.fields[0]
+            return z3.simplify(b.fields[0].term).as_long()
+
+        def m_as_typed(interp, path, args, ret_ty, callee):
+            d = self._d
+            E, Q = self._sets(d)
+            qset = StructV("IndexSet<NonFungibleLocalId>", [_nfid(q) for q in Q])
+            inp = {"take_non_fungibles": StructV("WorktopTakeNonFungiblesInput", [qset, res_v(d["r"])]),
+                   "assert_contains_non_fungibles": StructV("WorktopAssertContainsNonFungiblesInput", [res_v(d["r"]), qset])}[self.op]
+            return ok(ret_ty, inp)
+
+        def m_ids(interp, path, args, ret_ty, callee):
+            n = node_of(interp, path, args[0])
+            E, _ = self._sets(self._d)
+            return ok(ret_ty, StructV("IndexSet<NonFungibleLocalId>", [_nfid(e) for e in E] if n == 80 else []))
+
+        def m_take_nf(interp, path, args, ret_ty, callee):
+            job = path.frames["job"]
+            job["split"] = IntV(job["split"].term + 1, "u32")
+            job["split_from"] = IntV(node_of(interp, path, args[0]), "u8")
+            ids = args[1]
+            _, Q = self._sets(self._d)
+            same = z3.And([z3.BoolVal(len(ids.fields) == len(Q))] + [_models.val_eq(x, _nfid(q)) for x, q in zip(ids.fields, Q)])
+            job["split_ok"] = BoolV(same)
+            return ok(ret_ty, StructV("NonFungibleBucket", [bucket_v(92)]))
+
+        def m_superset(interp, path, args, ret_ty, callee):
+            a_, b_ = _models.deref(interp, path, args[0]), _models.deref(interp, path, args[1])
+            cs = [z3.Or([_models.val_eq(x, e) for x in a_.fields]) if a_.fields else z3.BoolVal(False) for e in b_.fields]
+            return BoolV(z3.And(cs) if cs else z3.BoolVal(True))
+        mine = [(R(r"IndexedScryptoValue::as_typed::<"), m_as_typed),
+                (R(r"^<Bucket as NativeNonFungibleBucket>::non_fungible_local_ids::<"), m_ids),
+                (R(r"^<Bucket as NativeNonFungibleBucket>::take_non_fungibles::<"), m_take_nf),
+                (R(r"^IndexSet::<NonFungibleLocalId>::is_superset(::<.*>)?$"), m_superset),
+                (R(r"^<NonFungibleBucket as Into<Bucket>>::into$"), lambda i, p, a, r, c: a[0].fields[0]),
+                (R(r"^<NonFungibleLocalId as Clone>::clone$"), _models.m_clone)]
+        return mine + base
+
+    def setup_path(self, path, inp):
+        WorktopStep.setup_path(self, path, inp)
+        job = path.frames["job"]
+        job["split"], job["split_from"], job["split_ok"] = IntV(0, "u32"), IntV(0, "u8"), BoolV(True)
+        job["amt92"] = IntV(0, "i256")
+
+    def extract_outcome(self, o):
+        d = self._d
+        job = o.path.frames["job"]
+        ok = o.value.discr == 0
+        m = job["worktop"].fields[0]
+        still = z3.BoolVal(False)          # bucket 80 still on the worktop
+        for s_ in m.fields:
+            pres = s_.fields[2].term
+            if z3.is_false(pres) or s_.fields[1].kind != "struct":
+                continue
+            node = z3.simplify(s_.fields[1].fields[0].fields[0].term).as_long()
+            if node == 80:
+                still = z3.Or(still, pres)
+        ret = z3.IntVal(0)
+        if o.value.variants.get(0) and self.op == "take_non_fungibles":
+            v = o.value.variants[0][0].fields[0]
+            while v.kind == "struct" and v.ty != "NodeId":
+                v = v.fields[0]
+            ret = z3.IntVal(z3.simplify(v.fields[0].term).as_long())
+        return {"ok": ok, "ret": z3.If(ok, ret, 0), "still": z3.If(still, 1, 0),
+                "split_ok": z3.If(z3.And(job["split_ok"].term, z3.Or(job["split"].term == 0, job["split_from"].term == 80)), 1, 0)}
+
+    def native(self, nat, vals):
+        c = self.case
+        E = [vals["e_%d" % j] for j in range(c["ne"])]
+        Q = [vals["q_%d" % j] for j in range(c["nq"])]
+        t = nat.call("worktop_run", self.op, vals["r"], vals["x"], vals["p0"], vals["e0"], vals["a0"], vals["p1"], vals["e1"],
+                     vals["a1"], len(E), *(E + [len(Q)] + Q)).split()
+        if t[0] == "panic":
+            return {"panic": True, "msg": " ".join(t[1:])}
+        kv = dict(x.split("=", 1) for x in t[1:])
+        held = [e.split(":")[1] for e in ([] if kv["map"] == "-" else kv["map"].split(","))]
+        ok = t[0] == "ok"
+        return {"panic": False, "ok": ok, "ret": int(kv["ret"]) if (ok and kv["ret"] != "-") else 0, "still": 1 if "80" in held else 0,
+                "split_ok": 1}
+
+    def post(self, inp, res):
+        d = {k: lit(v) for k, v in inp.items()}
+        E, Q = self._sets(d)
+        has = z3.And(d["p0"] == 1, d["e0"] == d["r"])           # the worktop's bucket of the asked resource is bucket 80
+        other = z3.And(d["p1"] == 1, d["e1"] == d["r"])         # ... or bucket 81, which holds no ids in this job
+        held = lambda q: z3.Or([q == e for e in E]) if E else z3.BoolVal(False)
+        all_held = z3.And([held(q) for q in Q]) if Q else z3.BoolVal(True)
+        ok = lit(res["ok"])
+        before_still = d["p0"] == 1
+        if self.op == "assert_contains_non_fungibles":
+            spec = z3.If(has, all_held, z3.BoolVal(len(Q) == 0))
+            return [("passes exactly when every asserted id is held for that resource", ok == spec),
+                    ("changes nothing", lit(res["still"]) == z3.If(before_still, 1, 0))]
+        nq, ne = len(Q), len(E)
+        spec = z3.Or(z3.BoolVal(nq == 0), z3.And(has, all_held), z3.And(other, z3.BoolVal(False)))
+        whole = z3.And(has, all_held, z3.BoolVal(nq == ne and nq > 0))
+        return [("succeeds exactly when nothing is asked for or every asked id is held", ok == spec),
+                ("the whole bucket leaves the worktop only when the asked ids are all the held ids; otherwise exactly the asked "
+                 "ids are split off the held bucket; an empty request returns a fresh empty bucket",
+                 z3.Implies(ok, z3.And(lit(res["ret"]) == z3.If(z3.BoolVal(nq == 0), 91, z3.If(whole, 80, 92)),
+                                       lit(res["still"]) == z3.If(z3.And(before_still, z3.Not(whole)), 1, 0),
+                                       lit(res["split_ok"]) == 1))),
+                ("a failed take changes nothing", z3.Implies(z3.Not(ok), lit(res["still"]) == z3.If(before_still, 1, 0)))]
+
+    def covers(self, inp, res):
+        d = {k: lit(v) for k, v in inp.items()}
+        ok = lit(res["ok"])
+        c = self.case
+        if self.op == "assert_contains_non_fungibles":
+            return [("passes", z3.And(ok, z3.BoolVal(c["nq"] > 0))), ("fails", z3.Not(ok))]
+        return [("whole bucket moved out", z3.And(ok, lit(res["ret"]) == 80)), ("ids split off", z3.And(ok, lit(res["ret"]) == 92)),
+                ("same count but a foreign id: rejected", z3.And(z3.Not(ok), z3.BoolVal(c["nq"] == c["ne"] and c["nq"] > 0),
+                                                                 d["p0"] == 1, d["e0"] == d["r"]))]
+
+    def vectors(self, rng):
+        out = []
+        for _ in range(40):
+            ne, nq = rng.randrange(3), rng.randrange(3)
+            pool = rng.sample(range(1, 8), 5)
+            E = pool[:ne]
+            Q = (E + pool[3:])[:nq] if rng.random() < 0.6 else rng.sample(pool, nq)
+            e0 = rng.choice([2, 2, 1])
+            d = {"ne": ne, "nq": nq, "r": rng.choice([2, 2, 1]), "x": 0, "p0": 1 if rng.random() < 0.8 else 0, "e0": e0, "a0": 0,
+                 "p1": rng.randrange(2), "e1": rng.choice([e for e in range(3) if e != e0]), "a1": 0}
+            for j, e in enumerate(E):
+                d["e_%d" % j] = e
+            for j, q in enumerate(Q):
+                d["q_%d" % j] = q
+            out.append(d)
+        return out
+
+
+JOBS["C09"] += [WorktopNfStep("take_non_fungibles"), WorktopNfStep("assert_contains_non_fungibles")]
